@@ -6,12 +6,12 @@ Lemma str_eqb_true_eq a b : str_eqb a b = true -> a = b.
 Proof. apply str_eqb_eq. Qed.
 
 (** * fix-hasattr-call *)
-Lemma hasattr_step_gen p elt x it : exists p', hasattr_step (EGen p elt x it) = EGen p' elt x it.
+Lemma hasattr_step_gen cfg p elt x it : exists p', hasattr_step cfg (EGen p elt x it) = EGen p' elt x it.
 Proof. exists p. reflexivity. Qed.
-Lemma hasattr_step_not_gen n : is_gen n = false -> is_gen (hasattr_step n) = false.
+Lemma hasattr_step_not_gen cfg n : is_gen n = false -> is_gen (hasattr_step cfg n) = false.
 Proof.
   destruct n; try reflexivity; try discriminate. cbn. destruct f; try reflexivity.
-  destruct args as [|a rest]; [reflexivity|]. destruct (last_is_call_lit (a :: rest)); reflexivity.
+  destruct args as [|a rest]; [reflexivity|]. destruct (hasattr_fires cfg a rest); reflexivity.
 Qed.
 Lemma hasattr_callable_eq v :
   inst_only_call v = false -> py_hasattr v call_attr = Val (VBool (py_callable v)).
@@ -21,11 +21,12 @@ Proof.
   destruct (mem_str call_attr cls_attrs); cbn [orb]; [reflexivity|].
   cbn [negb] in H. rewrite andb_true_r in H. rewrite H. reflexivity.
 Qed.
-Lemma hasattr_step_sound rho n : hasattr_node_ok rho n = true -> eval rho (hasattr_step n) = eval rho n.
+Lemma hasattr_step_sound cfg rho n : hasattr_node_ok cfg rho n = true -> eval rho (hasattr_step cfg n) = eval rho n.
 Proof.
   destruct n; try reflexivity. destruct f; try reflexivity. destruct args as [|a rest]; [reflexivity|].
-  cbn [hasattr_node_ok hasattr_step]. destruct (last_is_call_lit (a :: rest)) eqn:L; [|reflexivity].
+  cbn [hasattr_node_ok hasattr_step]. destruct (hasattr_fires cfg a rest) eqn:F; [|reflexivity].
   destruct rest as [|l [|? ?]]; try discriminate.
+  unfold hasattr_fires in F. apply andb_true_iff in F as [L _].
   (* the last argument is the literal "__call__" *)
   unfold last_is_call_lit in L. cbn in L. destruct l; try discriminate. destruct c; try discriminate.
   apply str_eqb_true_eq in L. subst s.
@@ -37,9 +38,9 @@ Proof.
     fold call_attr. rewrite hasattr_callable_eq; [reflexivity|].
     destruct (inst_only_call v); [discriminate|reflexivity].
 Qed.
-Theorem hasattr_preserves rho e : hasattr_guard rho e = true -> eval rho (rw_hasattr e) = eval rho e.
+Theorem hasattr_preserves cfg rho e : hasattr_guard cfg rho e = true -> eval rho (rw_hasattr cfg e) = eval rho e.
 Proof.
-  apply (bu_sound hasattr_step hasattr_node_ok).
+  apply (bu_sound (hasattr_step cfg) (hasattr_node_ok cfg)).
   - apply hasattr_step_sound.
   - apply hasattr_step_gen.
   - intros _ n _. apply hasattr_step_not_gen.
@@ -77,6 +78,8 @@ Proof.
     destruct (py_lt_forms v w H) as (A & B & C & D); assumption.
 Qed.
 
+Lemma builtin_ordered v w : (is_num v && is_num w) || (is_strv v && is_strv w) = true -> ordered_pair v w = true.
+Proof. destruct v as [[]| | | | | | | | |], w as [[]| | | | | | | | |]; cbn; intros H; try discriminate H; reflexivity. Qed.
 Lemma invert_step_gen cfg p elt x it : exists p', invert_step cfg (EGen p elt x it) = EGen p' elt x it.
 Proof. exists p. reflexivity. Qed.
 
@@ -95,7 +98,7 @@ Proof.
   cbn [chain]. destruct (eval rho c) as [w|] eqn:Ec; [|reflexivity].
   rewrite (cmp_op_negates o o' v w Hn).
   - destruct (cmp_op o v w); reflexivity.
-  - destruct Ho as [Ho|Ho]; [left; exact Ho|right]. unfold totally_ordered_operands in Ho. rewrite El, Ec in Ho. exact Ho.
+  - destruct Ho as [Ho|Ho]; [left; exact Ho|right]. unfold totally_ordered_operands in Ho. rewrite El, Ec in Ho. apply builtin_ordered, Ho.
 Qed.
 
 Lemma py_is_bool_true b : py_is (VBool b) (VBool true) = CB b.
